@@ -33,6 +33,7 @@ type a7Gen struct {
 	h         *H
 	Specials  bool // fifo / dev / chardev / socket / irregular nodes
 	Hardlinks bool // groups of regular files with links > 1 and a common (inode, device)
+	NoInodes  bool // Windows-style snapshot: no node has a link count, an inode or a device id
 	Weird     bool // metadata the archiver never writes (sizes on non-files, links=0 with inode, shared keys, unknown / empty type)
 	MaxDepth  int
 	MaxKids   int
@@ -228,6 +229,9 @@ func (g *a7Gen) level(depth int) []*a7Node {
 			n = g.file(name)
 		}
 		g.fillCommon(n)
+		if g.NoInodes {
+			n.Links, n.Inode, n.DeviceID = 0, 0, 0
+		}
 		out = append(out, n)
 	}
 	sort.Slice(out, func(i, j int) bool { return out[i].Name < out[j].Name })
